@@ -34,25 +34,45 @@ fn remove_input_attr(inputs: Punctuated<FnArg, Token![,]>) -> Punctuated<FnArg, 
 
 impl Fold for StripInput {
     fn fold_trait_item_fn(&mut self, i: TraitItemFn) -> TraitItemFn {
+        // Only message handlers have their parameter attributes consumed by the macro;
+        // parameters of any other method are re-emitted as written.
+        let is_handler = i
+            .attrs
+            .iter()
+            .any(|attr| SylviaAttribute::new(attr) == Some(SylviaAttribute::Msg));
         let attrs = i
             .attrs
             .into_iter()
             .filter(|attr| SylviaAttribute::new(attr).is_none())
             .collect();
 
-        let inputs = remove_input_attr(i.sig.inputs);
+        let inputs = if is_handler {
+            remove_input_attr(i.sig.inputs)
+        } else {
+            i.sig.inputs
+        };
         let sig = Signature { inputs, ..i.sig };
         fold::fold_trait_item_fn(self, TraitItemFn { attrs, sig, ..i })
     }
 
     fn fold_impl_item_fn(&mut self, i: ImplItemFn) -> ImplItemFn {
+        // Only message handlers have their parameter attributes consumed by the macro;
+        // parameters of any other method are re-emitted as written.
+        let is_handler = i
+            .attrs
+            .iter()
+            .any(|attr| SylviaAttribute::new(attr) == Some(SylviaAttribute::Msg));
         let attrs = i
             .attrs
             .into_iter()
             .filter(|attr| SylviaAttribute::new(attr).is_none())
             .collect();
 
-        let inputs = remove_input_attr(i.sig.inputs);
+        let inputs = if is_handler {
+            remove_input_attr(i.sig.inputs)
+        } else {
+            i.sig.inputs
+        };
         let sig = Signature { inputs, ..i.sig };
         fold::fold_impl_item_fn(self, ImplItemFn { attrs, sig, ..i })
     }
